@@ -99,10 +99,58 @@ def compile_ir(cmd, outdir, flavour='configured', extra=()):
     p1 = subprocess.run(args, capture_output=True, text=True, cwd=cmd['dir'])
     if p1.returncode != 0:
         raise AnalysisBroken(f'clang failed on {cmd["unit"]} [{flavour}]:\n{p1.stderr[-2000:]}')
-    p2 = subprocess.run(['opt-14', '-S', '-passes=mem2reg', '-o', out], input=p1.stdout, text=True, capture_output=True)
+    passes = os.environ.get('LECVERIF_PASSES', 'mem2reg')
+    p2 = subprocess.run(['opt-14', '-S', '-passes=' + passes, '-o', '-'], input=p1.stdout, text=True, capture_output=True)
     if p2.returncode != 0:
         raise AnalysisBroken(f'opt failed on {cmd["unit"]}: {p2.stderr[-2000:]}')
+    text = normalise_new_helpers(p2.stdout, cmd['unit'])
+    with open(out, 'w') as fh:
+        fh.write(text)
     return out
+
+_known = None
+def known_functions():
+    global _known
+    if _known is None:
+        p = os.path.join(os.path.dirname(os.path.abspath(__file__)), 'known_functions.txt')
+        _known = {l.strip() for l in open(p) if l.strip() and not l.startswith('#')}
+    return _known
+
+def normalise_new_helpers(text, unit):
+    """functions that do not exist in the reference tree are new helpers: inline them into their callers (LLVM always-inline,
+    then mem2reg again for locals they received by address, then drop the dead internal definitions)"""
+    known = known_functions()
+    defs = re.findall(r'^define ([^@\n]*?)(@[\w.$]+)\(', text, re.M)
+    new = [n for pre, n in defs if n not in known]
+    if not new:
+        return text
+    groups = dict(re.findall(r'^attributes (#\d+) = \{(.*)\}\s*$', text, re.M))
+    nextg = max([int(g[1:]) for g in groups] + [0]) + 1000
+    added = {}
+    lines = text.split('\n')
+    for i, ln in enumerate(lines):
+        if ln.startswith('define '):
+            m = re.search(r'(@[\w.$]+)\(', ln)
+            if m and m.group(1) in new:
+                gm = re.search(r' (#\d+)( |$)', ln[ln.rfind(')'):])
+                if gm:
+                    g = gm.group(1)
+                    if g not in added:
+                        body = groups.get(g, '')
+                        body = re.sub(r'\b(noinline|optnone)\b', '', body)
+                        added[g] = (f'#{nextg + len(added)}', ' alwaysinline ' + body)
+                    tail = ln[ln.rfind(')'):].replace(' ' + g, ' ' + added[g][0], 1)
+                    lines[i] = ln[:ln.rfind(')')] + tail
+                else:
+                    lines[i] = ln.replace(' {', ' alwaysinline {') if ln.rstrip().endswith('{') else ln
+    text = '\n'.join(lines)
+    for g, (ng, body) in added.items():
+        text += f'\nattributes {ng} = {{{body}}}\n'
+    post = os.environ.get('LECVERIF_POST_INLINE', 'function(mem2reg)')
+    p = subprocess.run(['opt-14', '-S', '-passes=always-inline,' + post + ',globaldce', '-o', '-'], input=text, text=True, capture_output=True)
+    if p.returncode != 0:
+        raise AnalysisBroken(f'inlining of new helpers failed on {unit}: {p.stderr[-1500:]}')
+    return p.stdout
 
 def compile_all(root='/repo', flavour='configured', jobs=16):
     cmds = unit_commands(root)
